@@ -55,6 +55,17 @@ def gen(rnd, idx=0, nfiles=None, ntypes=None, ncmds=None, nevents=None, validato
             params.insert(0, ("app", "AppHandle"))
         ret = rnd.choice([None, "String", "Result<%s, String>" % rnd.choice(tnames), rnd.choice(tnames), "Vec<%s>" % rnd.choice(tnames), "Result<(), String>", "Option<i32>"])
         items.append(Item("command", nm, rg.command_src(nm, params, ret, is_async=rnd.random() < 0.5)))
+    if rnd.random() < 0.3:
+        # type names that differ only in case (Id / ID, Url / URL): distinct types, whatever order anything sorts them in
+        for a_, b_ in (("Id%d" % idx, "ID%d" % idx), ("Url%dKind" % idx, "URL%dKind" % idx), ("IoError%d" % idx, "IOError%d" % idx), ("Uuid%dV" % idx, "UUID%dV" % idx)):
+            items.append(Item("type", a_, rg.struct_src(a_, [("lower", "u32")])))
+            items.append(Item("type", b_, rg.struct_src(b_, [("upper", "String")])))
+            items.append(Item("command", "uses_%s" % a_.lower(), rg.command_src("uses_%s_%d" % (a_.lower(), len(items)), [("a", a_)], b_)))
+    if rnd.random() < 0.3:
+        # one command implemented once per platform: two annotated functions of one name (and one signature)
+        nm = "platform_cmd_%d" % idx
+        for gate in ('#[cfg(target_os = "windows")]', '#[cfg(not(target_os = "windows"))]'):
+            items.append(Item("command", nm, rg.command_src(nm, [("path", "String"), ("flags", "u32")], "Result<String, String>", pre_attrs=[gate])))
     for e in range(nevents):
         nm = "notify_%d_%d" % (idx, e)
         pt = rnd.choice(tnames)
